@@ -27,7 +27,8 @@ Spec == Init /\ [][Next]_vars
 Finished == phase = "run" /\ (m.status = "done" \/ m.n >= MaxSteps)
 EmitRun == Finished =>
     PrintT(<<"RUN", ToJson([prog |-> SubSeq(m.prog, m.segs[2].lo, m.segs[2].hi), out |-> m.out, result |-> m.result, trig |-> m.trig, oom |-> m.oom,
-                            done |-> m.status = "done", steps |-> m.n])>>)
+                            done |-> m.status = "done", steps |-> m.n,
+                            heap |-> IF m.status = "done" /\ ~m.oom THEN LiveCounts(m) ELSE [exact |-> FALSE]])>>)
 (* the reference semantics is total: it never gets stuck *)
 NotStuck == ~(phase = "run" /\ m.status = "done" /\ m.result.kind = "Stuck")
 =============================================================================
